@@ -9,6 +9,8 @@ import (
 	simplefixgo "github.com/b2broker/simplefix-go"
 	"github.com/b2broker/simplefix-go/session"
 	"github.com/b2broker/simplefix-go/session/messages"
+	"github.com/b2broker/simplefix-go/fix"
+	"github.com/b2broker/simplefix-go/storages/memory"
 	fixgen "github.com/b2broker/simplefix-go/tests/fix44"
 	"github.com/b2broker/simplefix-go/utils"
 	"pgregory.net/rapid"
@@ -37,6 +39,7 @@ type C19Case struct {
 	EventHandlers int     `json:"event_handlers"`
 	// the application removes one of its own handlers (Remove...Handler with the id it was given)
 	// right before the send step RemoveAt; -1: no removal
+	Prior         *Script `json:"prior,omitempty"` // an earlier session on the same stores, after which the application reset both counters
 	RemoveHandler int    `json:"remove_handler"`
 	RemoveAt      string `json:"remove_at,omitempty"`
 }
@@ -98,6 +101,17 @@ func genC19(t *rapid.T) *C19Case {
 		}
 	}
 	c.MaxHB = g.maxHB
+	if rapid.IntRange(0, 4).Draw(t, "withPrior") == 0 {
+		pg := &hgen{t: t, cfg: cfg, inSeq: 1}
+		p := &Script{Cfg: cfg}
+		p.Cfg.FailSaves = nil
+		p.Steps = append(p.Steps, rig.Step{Op: "in", In: pg.goodLogon(0)})
+		for i := rapid.IntRange(1, 10).Draw(t, "priorSends"); i > 0; i-- {
+			p.Steps = append(p.Steps, rig.Step{Op: "send", ID: fmt.Sprintf("old-%d", i)})
+		}
+		p.MaxHB = pg.maxHB
+		c.Prior = p
+	}
 	if len(c.Handlers) > 0 && rapid.IntRange(0, 3).Draw(t, "removes") == 0 {
 		var sends []string
 		for _, st := range c.Steps {
@@ -220,6 +234,17 @@ func checkC19(c *C19Case, rec *evid.Rec) (vs []pbt.Violation) {
 		}
 	}
 	evOrder = nil
+	inner := memory.NewStorage()
+	hooks.Inner = inner
+	if c.Prior != nil {
+		ptr := rig.RunDirect(outerT, c.Prior.Cfg, c.Prior.Steps, &rig.Hooks{Inner: inner}, c.Prior.MaxHB)
+		if ptr.Trouble != "" {
+			return []pbt.Violation{pbt.V("harness", "prior session: %s", ptr.Trouble)}
+		}
+		_ = inner.ResetSeqNum(fix.StorageID{Side: fix.Outgoing})
+		_ = inner.ResetSeqNum(fix.StorageID{Side: fix.Incoming})
+		rec.Hist("store-reused-after-counter-reset")
+	}
 	tr := rig.RunDirect(outerT, c.Cfg, c.Steps, hooks, c.MaxHB)
 	if tr.Trouble != "" {
 		return []pbt.Violation{pbt.V("harness", "%s", tr.Trouble)}
@@ -468,6 +493,25 @@ func checkC19(c *C19Case, rec *evid.Rec) (vs []pbt.Violation) {
 			}
 		} else if !refused && !a.saveFail && len(a.handlerCalls)+b2i(a.saveOK) > 0 {
 			vs = append(vs, pbt.V("not-sent-without-reason", "message #%d was saved and accepted by every handler but never transmitted", n))
+		}
+	}
+	// what the store holds under a transmitted message's number is that message (not judged
+	// with modifying handlers: a retransmission passes through them again, and the bundled
+	// store keeps the object, so the stored message legitimately moves on)
+	if len(vs) == 0 && !anyModify {
+		for n, a := range att {
+			if a.wire == nil || a.saveFail || !a.saveOK {
+				continue
+			}
+			ms, err := inner.Messages(fix.StorageID{Side: fix.Outgoing}, n, n)
+			if err != nil || len(ms) != 1 {
+				vs = append(vs, pbt.V("stored-message-missing", "message #%d was transmitted after a successful Save, but the store answers (%v, %d messages) for that number", n, err, len(ms)))
+				break
+			}
+			if b, _ := ms[0].ToBytes(); !bytes.Equal(b, a.wire) {
+				vs = append(vs, pbt.V("stored-message-differs", "message #%d: the store holds %s under that number, transmitted was %s", n, ref.Show(b), ref.Show(a.wire)))
+				break
+			}
 		}
 	}
 	// Send's error result, per "send" step
